@@ -315,6 +315,53 @@ class Prov:
             return None
         return lo, hi, h
 
+    def stride(self, l, block):
+        """(initial value expr, constant step) when local l is advanced by a constant once per iteration of the innermost loop
+        around `block` that defines it (the one definition in the loop is `l = l@in + step`, dominates every latch and is not in
+        an inner loop) and enters the loop with one loop-invariant value; None otherwise"""
+        if not self.cut_loops:
+            return None
+        cand = [(h, comp) for (h, comp, defd) in self.loops() if block in comp and l in defd]
+        if not cand:
+            return None
+        h, comp = cand[0]
+        fn = self.fn
+        ins = [(b, i, k) for (b, i, k) in self.defs.get(l, []) if b in comp]
+        if len(ins) != 1 or ins[0][2] != 'full':
+            return None
+        db, di, _ = ins[0]
+        dom = fn.dominators()
+        latches = [p for p in fn.pred(h) if p in comp]
+        if not latches or any(db not in dom.get(p, ()) for p in latches):
+            return None
+        for (h2, comp2, _) in self.loops():
+            if h2 != h and comp2 < comp and db in comp2:
+                return None
+        saved = self._raw_in
+        self._raw_in = True
+        try:
+            e = strip(norm(self._def_expr(l, db, di, 0)))
+            if e.k == 'field' and e.name == '0' and e.args:
+                e = strip(e.args[0])
+            if not (e.k == 'binop' and e.name in ('AddWithOverflow', 'Add', 'AddUnchecked') and len(e.args) == 2):
+                return None
+            a, b_ = strip(e.args[0]), strip(e.args[1])
+
+            def is_in(x):
+                return x.k == 'local' and (x.c or {}).get('loopvar') and (x.c or {}).get('l') == l
+            step = const_int(b_) if is_in(a) else const_int(a) if is_in(b_) else None
+            if step is None:
+                return None
+            outs = [p for p in fn.pred(h) if p not in comp]
+            inits = [norm(self.local(l, p, len(fn.blocks[p]['stmts']))) for p in outs]
+            if not inits or any(strip(x).k == 'phi' or not _invariant(x) for x in inits) or len({x.show() for x in inits}) != 1:
+                return None
+            return inits[0], step
+        except RecursionError:
+            return None
+        finally:
+            self._raw_in = saved
+
     def induction_loops(self):
         """[(header, blocks, local, lo, hi)] of the counted while-loops of the function"""
         out = []
